@@ -321,12 +321,12 @@ def cases(tier, seed, rng):
     from vlib.runner import Case
     out = []
     L = lib_version()
-    n_sessions = 14 if tier == 'quick' else 250
+    n_sessions = 14 if tier == 'quick' else 80
     for _ in range(n_sessions):
         out.append(Case(session_case(rng, tier), 'gen:session'))
     plain = [('empty',), ('junk', '7'), ('junk', '5000'), ('dir',), ('plainh5',), ('trunc', '50'), ('trunc', '97'), ('trunc', '3'),
              ('rmgroup', 'metadata'), ('rmgroup', 'data'), ('rmattr', 'created_at'), ('rmattr', 'updated_at')]
-    reps = 1 if tier == 'quick' else 12
+    reps = 1 if tier == 'quick' else 4
     for _ in range(reps):
         for d in defects(L):
             out.append(Case(defect_case(rng, tier, ('hdr', d)), 'gen:defect'))
